@@ -172,7 +172,7 @@ func (ch *Chaos) apply(a faultAction) {
 		ch.C.Net.Block(ch.addr(a.A), ch.addr(a.B), true)
 	case "heal":
 		ch.C.Net.ClearBlocks()
-	case "crash", "hang":
+	case "crash", "hang", "unreach":
 		cn := ch.Nodes[a.A]
 		if cn.Crashed || cn.Left || cn.Leaving {
 			return
@@ -186,12 +186,17 @@ func (ch *Chaos) apply(a faultAction) {
 			_ = cn.Node.ML().Shutdown()
 		} else {
 			ch.C.Crash(cn.Node)
+			if a.Kind == "unreach" {
+				// the host is gone and so is the route: peers' sends fail locally with ENETUNREACH
+				ch.C.Net.SetUnreachable(cn.Node.EP.Addr, true)
+			}
 		}
 	case "restart":
 		cn := ch.Nodes[a.A]
 		if !cn.Crashed {
 			return
 		}
+		ch.C.Net.SetUnreachable(cn.Node.EP.Addr, false)
 		cn.Old = append(cn.Old, cn.Node)
 		cn.Restarts++
 		cn.MetaGen = 0
@@ -221,6 +226,7 @@ func (ch *Chaos) apply(a faultAction) {
 			return
 		}
 		old.Replaced = true
+		ch.C.Net.SetUnreachable(old.Node.EP.Addr, false)
 		cn := &chaosNode{Idx: len(ch.Nodes), Name: old.Name + "x", IP: old.IP}
 		nd, err := ch.C.Add(ch.spec(cn))
 		if err != nil {
